@@ -159,14 +159,18 @@ def g_p6(cfgs=("s",)):
     return [I("p6_auto", cfg=c) for c in cfgs]
 
 
-def t1_bounds(rule, tier):
+def t1_bounds(rule, tier, lemma=False):
     # (KMAX, WMAX): longest token / word bytes covered
     if rule == 0:
         return (36, 34)
     if rule == 1:
         return (12, 10)
-    # thorough covers every Spanish/French word completely (longest: 12 bytes decomposed)
-    return (10, 8) if tier == "quick" else (14, 12)
+    # thorough covers every Spanish/French word completely (longest: 12 bytes decomposed); the acceptance
+    # rule itself (t1_accept) is decided for tokens of up to 20 bytes there (455 s, 3 GB), the order lemma
+    # (three strings) for tokens of up to 14
+    if tier == "quick":
+        return (10, 8)
+    return (14, 12) if lemma else (20, 12)
 
 
 def g_t1(tier, cfgs=("s",), rules=(0, 1, 2, 3)):
@@ -202,18 +206,17 @@ def g_t3_lemma(tier, cfgs=("s",), rules=(0, 1, 2, 3)):
     out = []
     for c in cfgs:
         for r in rules:
-            k, w = t1_bounds(r, tier)
+            k, w = t1_bounds(r, tier, lemma=True)
             out.append(I("t3_lemma", cfg=c, defs=["RULE=%d" % r, "KMAX=%d" % k, "WMAX=%d" % w], flags=UW(max(k, w) + 2), cap=3000, rss=4.0))
     return out
 
 
 def g_t2(tier):
+    # The kind of list is a constant of each instance (IS_SORTED in the harness), so symex never enters
+    # the other branch of lang_search: the whole 2048-entry linear scan costs 90 s / 2.3 GB (it was
+    # 21 min / 26 GB while the binary-search model was unwound to the scan's bound) and runs in both tiers.
     out = [I("t2_search", defs=["SORTED=1"], flags=UW(100), cap=240, rss=1.5),
-           I("t2_search", defs=["SORTED=0", "LINEAR_PREFIX=256"], flags=UW(258), cap=300, rss=2.5)]
-    # (a cell for a match among the LAST 256 entries of an unsorted list costs as much as the whole scan --
-    #  15 GB -- so the tail of the linear scan is covered by the thorough tier only)
-    if tier == "thorough":
-        out.append(I("t2_search", defs=["SORTED=0"], flags=UW(2050), cap=2400, rss=26.0))
+           I("t2_search", defs=["SORTED=0"], flags=UW(2050), cap=900, rss=4.0)]
     return out
 
 
